@@ -24,6 +24,7 @@ import (
 	"sort"
 	"strconv"
 	"strings"
+	"unicode"
 
 	"github.com/tsawler/tabula/rag"
 )
@@ -38,6 +39,10 @@ var c14Tok = map[string]string{
 	"w1": "alfa", "w2": "bravo", "w3": "charlie", "W1": "ALFA", "W2": "Bravo", "W3": "CHARLIE",
 	"i1": "id1", "i2": "id2", "i3": "id3", "i4": "id4", "i5": "id5", "i6": "id6", "i7": "id7", "i8": "id8",
 	"i9": "id9", "i10": "idA", "i11": "idB", "i12": "idC",
+	// the case alphabet of the Search / FilterBySection family: one character per token
+	"a": "a", "A": "A", "k": "k", "K": "K", "s": "s", "S": "S", "e1": "\u00e9", "E1": "\u00c9",
+	"sg": "\u03c3", "SG": "\u03a3", "sf": "\u03c2", "I1": "\u0130", "i": "i", "KS": "\u212a",
+	"AS": "\u023a", "as": "\u2c65", "SS": "\u1e9e", "ss": "\u00df", "ls": "\u017f", "d7": "7",
 	// element types are literal strings wrapped as one-token texts
 	"paragraph": "paragraph", "list": "list", "table": "table", "heading": "heading",
 }
@@ -63,11 +68,58 @@ func c14Render(toks []string) string {
 	for _, t := range toks {
 		s, ok := c14Tok[t]
 		if !ok {
-			panic("c14: unknown token " + t)
+			if c14IsNumbered(t) { // ids n1, n2, ... of large generated collections render as themselves
+				s = t
+			} else {
+				panic("c14: unknown token " + t)
+			}
 		}
 		b.WriteString(s)
 	}
 	return b.String()
+}
+
+func c14IsNumbered(t string) bool {
+	if len(t) < 2 || t[0] != 'n' {
+		return false
+	}
+	for _, c := range t[1:] {
+		if c < '0' || c > '9' {
+			return false
+		}
+	}
+	return true
+}
+
+// c14CheckCaseTable cross-checks the specification's case table with the Unicode simple
+// lower-case mapping of the characters the harness renders the tokens to (the table is
+// hand-transcribed reference data; a disagreement is a machinery failure, never a verdict).
+func c14CheckCaseTable(lower [][]string, alphabet []string) string {
+	m := map[string]string{}
+	for _, p := range lower {
+		if len(p) != 2 {
+			return "malformed pair"
+		}
+		m[p[0]] = p[1]
+	}
+	for _, t := range alphabet {
+		s, ok := c14Tok[t]
+		if !ok {
+			return "token " + t + " of the case alphabet has no rendering"
+		}
+		rs := []rune(s)
+		if len(rs) != 1 {
+			return "token " + t + " of the case alphabet is not one character"
+		}
+		want := t
+		if l, ok := m[t]; ok {
+			want = l
+		}
+		if got := string(unicode.ToLower(rs[0])); got != c14Tok[want] {
+			return fmt.Sprintf("case table maps %s (%U) to %s (%q), UnicodeData maps it to %q", t, rs[0], want, c14Tok[want], got)
+		}
+	}
+	return ""
 }
 
 func c14RenderList(l [][]string) []string {
@@ -366,6 +418,8 @@ type c14Case struct {
 	Preds   []c14Pred  `json:"preds"`
 	Batches []c14Batch `json:"batches"`
 	Sel     [][]string `json:"sel"`
+	Lower    [][]string `json:"lower"`    // the spec's case table (filter cases)
+	Alphabet []string   `json:"alphabet"` // the characters it covers
 }
 
 func c14MakeChunks(cs []c14Chunk) []*rag.Chunk {
@@ -1092,6 +1146,9 @@ func c14ReplayCase(i int, raw []byte) Result {
 			return bad("stream-"+cl, strings.Replace(sig, "C14:", "C14:stream:", 1), "stream export: "+what, buf.String())
 		}
 	case "filter":
+		if why := c14CheckCaseTable(c.Lower, c.Alphabet); why != "" {
+			return fail("table", "table", "case table of Export.tla: "+why, nil)
+		}
 		cc := rag.NewChunkCollection(chunks)
 		before := c14IDs(cc.Chunks)
 		cur := cc
@@ -1112,7 +1169,7 @@ func c14ReplayCase(i int, raw []byte) Result {
 			want = append(want, c14Render(s))
 		}
 		if !c14Same(gotIDs, want) {
-			return bad("filter", "C14:filter:"+kinds[len(kinds)-1], fmt.Sprintf("filter chain %s selects %q, the predicate holds exactly for %q", string(mustJSON(c.Preds)), gotIDs, want), gotIDs)
+			return bad("filter", "C14:filter:"+strings.Join(kinds, "+"), fmt.Sprintf("filter chain %s selects %q, the predicate holds exactly for %q", string(mustJSON(c.Preds)), gotIDs, want), gotIDs)
 		}
 		if !c14Same(before, c14IDs(cc.Chunks)) {
 			return bad("filter-pure", "C14:filter:mutates", "filtering changed the source collection", c14IDs(cc.Chunks))
